@@ -5,6 +5,7 @@ from vlib import common, lifecycle
 LEVEL = "fault_enumeration"
 SHARDS = {"quick": 8, "thorough": 16}
 TIMEOUT = {"quick": 900, "thorough": 3600}
+MIN_EVALUATIONS = {"quick": 8000, "thorough": 8000}  # fewer oracle evaluations than this means the workload collapsed: inconclusive
 RULE = ("call histories over {open, close, read, write, big fragmented read, generic_message connected / UCMM / Unconnected Send, list identity, "
         "get_plc_name, with-block without/with exception} for CIPDriver, LogixDriver (small project, init_tags on/off) and SLCDriver: every history "
         "of length <= 2 (quick) / <= 3 (thorough) plus seeded random histories up to length 6 (8) x target policies {large Forward Open accepted, "
@@ -40,6 +41,9 @@ def plan(ctx, rng):
             if quick and len(h) == 2 and rng.random() < 0.5:
                 continue
             items.append(("logix", h, pol, rng.random() < 0.7))
+    for h in lifecycle.histories(lifecycle.LOGIX_OPS, 2):
+        if len(h) == 1 or rng.random() < (0.4 if quick else 1.0):
+            items.append(("micro", h, rng.choice(["large-ok", "large-refused"]), rng.random() < 0.7))
     try:
         from vlib import refslc  # noqa
         for h in lifecycle.histories(lifecycle.SLC_OPS, 2):
@@ -48,7 +52,7 @@ def plan(ctx, rng):
     except ImportError:
         pass
     for _ in range(600 if quick else 5000):
-        kind = rng.choice(["cip", "cip", "logix"])
+        kind = rng.choice(["cip", "cip", "logix", "micro"])
         ops = lifecycle.CIP_OPS if kind == "cip" else lifecycle.LOGIX_OPS
         h = tuple(rng.choice(ops) for _ in range(rng.randint(3, 6 if quick else 8)))
         items.append((kind, h, rng.choice(lifecycle.POLICIES), rng.random() < 0.7))
